@@ -112,5 +112,114 @@ def run(ctx, rep):
                witness=None if ok else "utility depends on / changes process state (%s): results depend on call history"
                % "; ".join([r.detail for r in ws][:2] + memo[:2] + [ctx.pt.describe(t) for t in list(touched)[:2]]), key="pure/" + f.name, nontrivial=True)
     check_fresh_return(ctx, eff, rep, ctx.api("get_alphabet_from_selfies"), "K3", "alphabet")
+    check_len(ctx, rep, lens)
+    check_scanner(ctx, rep, split)
     rep.floor("K1", 4)
     rep.floor("K2", 6)
+
+
+def check_len(ctx, rep, lens):
+    """K4: if len_selfies is an affine form over character counts, it is count('[') + count('.'): one per bracketed symbol
+    plus one per dot of a well-formed string (an implementation of another shape is not decided here)"""
+    from sa.sym import Engine, Hooks, Unk, Num
+    from sa.lin import Lin
+    eng = Engine(ctx, Hooks())
+    p = lens.posparams[0]
+    fr = eng.run_function(lens, {p: Unk(("s",))})
+    if len(fr.returns) != 1 or not isinstance(fr.returns[0][1], Num):
+        rep.note("len_selfies is not a single affine expression: agreement with split_selfies not decided")
+        return
+    lin = fr.returns[0][1].lin
+    counts = {t: c for t, c in lin.c.items() if isinstance(t, tuple) and t[0] == "count" and t[1] == ("unk", ("s",))}
+    if len(counts) != len(lin.c):
+        rep.note("len_selfies is not an affine form over character counts: agreement with split_selfies not decided")
+        return
+    want = {("count", ("unk", ("s",)), ("con", repr("["))): 1, ("count", ("unk", ("s",)), ("con", repr("."))): 1}
+    got = {t: int(c) for t, c in counts.items()}
+    ok = got == want and lin.k == 0
+    rep.ob("K4", ok, lens.node, lens, construct="len_selfies = %r" % (lin,), how="count('[') + count('.')", nontrivial=True, key="len-formula",
+           witness=None if ok else "len_selfies counts %r: it disagrees with the number of tokens split_selfies yields "
+           "(one per '[' and one per '.')" % (lin,))
+
+
+def check_scanner(ctx, rep, split):
+    """K5: contiguity of the bracket scanner: each iteration yields selfies[left:right+1] starting at the scan position, yields a
+    '.' exactly when the next character is '.', and continues right after what it yielded"""
+    from sa.sym import Engine, Hooks, Unk, Num, Con, vkey
+    from sa.lin import Lin, eq
+
+    class H(Hooks):
+        def __init__(self):
+            self.loop = None
+
+        def on_yield(self, eng, fr, node, value, st):
+            s2 = st.copy()
+            s2.tags = st.tags + (("yield", value, node),)
+            return s2
+
+        def on_loop_head(self, eng, fr, node, head):
+            head.tags = ()
+            return head
+
+        def on_loop(self, eng, fr, node, syms, entered, back, exits, breaks):
+            if fr.depth == 0 and self.loop is None:
+                self.loop = (node, syms, back, breaks)
+    h = H()
+    eng = Engine(ctx, h)
+    p = split.posparams[0]
+    eng.run_function(split, {p: Unk(("s",))})
+    if h.loop is None:
+        rep.note("split_selfies has no scanner loop in the analysed form: contiguity not decided")
+        return
+    node, syms, back, breaks = h.loop
+    skey = ("unk", ("s",))
+    # the scan-position variable: the loop-carried name that is the lower bound of the yielded slice
+    n = 0
+    for b in back:
+        ys = [t for t in b.tags if t[0] == "yield"]
+        probs = []
+        if not ys:
+            probs.append("an iteration yields nothing")
+        else:
+            v = ys[0][1]
+            org = eng.origin.get(v.term) if isinstance(v, Unk) else None
+            if not (org and org[0] == "slice" and vkey(org[1]) == skey and org[2] and org[3] and len(org[4]) == 2):
+                probs.append("first yield of an iteration is not a slice selfies[a:b]")
+            else:
+                lo, hi = org[4][0].lin, org[4][1].lin
+                pos = [nm for nm, t in syms.items() if (lo - Lin.var(t)).is_const() and (lo - Lin.var(t)).k == 0]
+                if not pos:
+                    probs.append("yielded symbol does not start at the scan position")
+                else:
+                    pv = pos[0]
+                    newp = b.env.get(pv)
+                    newl = newp.lin if isinstance(newp, Num) else None
+                    dots = [t for t in ys[1:]]
+                    # the test on the character after the symbol
+                    k_dot = None
+                    for k, val in b.atoms.items():
+                        if k[0] == "eq" and repr(vkey(Con("."))) in k[1]:
+                            other = [x for x in k[1] if x != repr(vkey(Con(".")))]
+                            for t2, o2 in eng.origin.items():
+                                if o2[0] == "slice" and other and repr(("unk", t2)) == other[0] and vkey(o2[1]) == skey and len(o2[4]) == 2:
+                                    l2, h2 = o2[4][0].lin, o2[4][1].lin
+                                    if (l2 - hi).is_const() and (l2 - hi).k == 0 and (h2 - hi).is_const() and (h2 - hi).k == 1:
+                                        k_dot = val
+                    if dots:
+                        if not (isinstance(dots[0][1], Con) and dots[0][1].value == "."):
+                            probs.append("second yield is not the dot token")
+                        if k_dot is not True:
+                            probs.append("a '.' is yielded although the character after the symbol is not tested to be '.'")
+                        if newl is None or not b.entails(eq(newl, hi + Lin.const(1))):
+                            probs.append("after a '.', scanning does not continue right behind it")
+                    else:
+                        if k_dot is not False:
+                            probs.append("no '.' is yielded although the character after the symbol is not tested to differ from '.'")
+                        if newl is None or not b.entails(eq(newl, hi)):
+                            probs.append("scanning does not continue right behind the yielded symbol")
+        n += 1
+        rep.ob("K5", not probs, node, split, construct="scanner iteration [%s]" % ", ".join("dot" if isinstance(t[1], Con) else "symbol" for t in ys),
+               how="yields selfies[pos:right+1]; '.' iff the next character is '.'; continues right behind", nontrivial=True,
+               witness="; ".join(probs) or None, key="scanner/%s/%s" % (len(ys), "ok" if not probs else probs[0][:40]))
+    if n < 2:
+        rep.note("scanner loop has %d analysed iteration path(s)" % n)
